@@ -83,8 +83,9 @@ impl Form {
     }
 }
 
-/// Where a record lives. `InVec` holds the record under test at index 0 and a bystander record
-/// (built by the same constructor) at index 1; conversions of such a slot go through
+/// Where a record lives. `InVec` holds a bystander record (built by the same constructor) at
+/// index 0 and the record under test at index 1 (an element whose address is the buffer's plus
+/// one record size); conversions of such a slot go through
 /// `truc_runtime::convert::convert_vec_in_place`.
 pub enum Place<T> {
     Inline(T),
@@ -135,14 +136,14 @@ impl<T> Place<T> {
         match self {
             Place::Inline(t) => t,
             Place::Boxed(b) => b,
-            Place::InVec(v) => &v[0],
+            Place::InVec(v) => &v[1],
         }
     }
     pub fn get_mut(&mut self) -> &mut T {
         match self {
             Place::Inline(t) => t,
             Place::Boxed(b) => b,
-            Place::InVec(v) => &mut v[0],
+            Place::InVec(v) => &mut v[1],
         }
     }
     /// Takes the record under test out; a bystander is dropped normally.
@@ -150,7 +151,7 @@ impl<T> Place<T> {
         match self {
             Place::Inline(t) => t,
             Place::Boxed(b) => *b,
-            Place::InVec(mut v) => v.remove(0),
+            Place::InVec(mut v) => v.remove(1),
         }
     }
     pub fn convert<U>(self, f: impl Fn(T) -> U + std::panic::RefUnwindSafe) -> Place<U> {
@@ -159,7 +160,7 @@ impl<T> Place<T> {
             Place::Boxed(b) => Place::Boxed(Box::new(f(*b))),
             Place::InVec(v) => {
                 let out = convert_vec_in_place::<T, U, _>(v, |t, prev| {
-                    OURS.with(|o| o.set(prev.is_none()));
+                    OURS.with(|o| o.set(prev.is_some()));
                     let u = f(t);
                     OURS.with(|o| o.set(true));
                     VecElementConversionResult::Converted(u)
